@@ -203,6 +203,115 @@ impl<'ast> Visit<'ast> for Statics {
   }
 }
 
+
+/// every use (outside `#[cfg(test)]` modules and `use` items) of a type that offers interior mutability or of `unsafe`:
+/// (file, identifier, site) with site = `static:<name>` | `struct:<name>` | `fn:<name>` | `macro:<name>` | `other`
+struct Cells {
+  file: String,
+  site: Vec<String>,
+  rows: Vec<(String, String, String)>,
+}
+const CELL_IDENTS: &[&str] = &[
+  "Cell", "RefCell", "UnsafeCell", "OnceCell", "OnceLock", "LazyLock", "LazyCell", "Lazy", "Mutex", "RwLock", "Condvar", "Once",
+  "AtomicBool", "AtomicUsize", "AtomicIsize", "AtomicU8", "AtomicU16", "AtomicU32", "AtomicU64", "AtomicI8", "AtomicI16",
+  "AtomicI32", "AtomicI64", "AtomicPtr", "SyncUnsafeCell", "DashMap", "ThreadLocal",
+];
+impl Cells {
+  fn hit(&mut self, id: &str) {
+    if CELL_IDENTS.contains(&id) {
+      self.rows.push((self.file.clone(), id.to_string(), self.site.last().cloned().unwrap_or_else(|| "other".into())));
+    }
+  }
+  fn unsafe_hit(&mut self) {
+    self.rows.push((self.file.clone(), "unsafe".into(), self.site.last().cloned().unwrap_or_else(|| "other".into())));
+  }
+}
+impl<'ast> Visit<'ast> for Cells {
+  fn visit_item_mod(&mut self, n: &'ast syn::ItemMod) {
+    if is_cfg_test(&n.attrs) {
+      return;
+    }
+    syn::visit::visit_item_mod(self, n);
+  }
+  fn visit_item_use(&mut self, _n: &'ast syn::ItemUse) {}
+  fn visit_item_static(&mut self, n: &'ast syn::ItemStatic) {
+    self.site.push(format!("static:{}", n.ident));
+    syn::visit::visit_item_static(self, n);
+    self.site.pop();
+  }
+  fn visit_item_struct(&mut self, n: &'ast syn::ItemStruct) {
+    self.site.push(format!("struct:{}", n.ident));
+    syn::visit::visit_item_struct(self, n);
+    self.site.pop();
+  }
+  fn visit_item_enum(&mut self, n: &'ast syn::ItemEnum) {
+    self.site.push(format!("struct:{}", n.ident));
+    syn::visit::visit_item_enum(self, n);
+    self.site.pop();
+  }
+  fn visit_item_type(&mut self, n: &'ast syn::ItemType) {
+    self.site.push(format!("struct:{}", n.ident));
+    syn::visit::visit_item_type(self, n);
+    self.site.pop();
+  }
+  fn visit_item_fn(&mut self, n: &'ast syn::ItemFn) {
+    // a `static` nested in a function keeps its own site (pushed later); the function is the site of everything else
+    self.site.push(format!("fn:{}", n.sig.ident));
+    if n.sig.unsafety.is_some() {
+      self.unsafe_hit();
+    }
+    syn::visit::visit_item_fn(self, n);
+    self.site.pop();
+  }
+  fn visit_impl_item_fn(&mut self, n: &'ast syn::ImplItemFn) {
+    self.site.push(format!("fn:{}", n.sig.ident));
+    if n.sig.unsafety.is_some() {
+      self.unsafe_hit();
+    }
+    syn::visit::visit_impl_item_fn(self, n);
+    self.site.pop();
+  }
+  fn visit_item_impl(&mut self, n: &'ast syn::ItemImpl) {
+    if n.unsafety.is_some() {
+      self.unsafe_hit();
+    }
+    syn::visit::visit_item_impl(self, n);
+  }
+  fn visit_expr_unsafe(&mut self, n: &'ast syn::ExprUnsafe) {
+    self.unsafe_hit();
+    syn::visit::visit_expr_unsafe(self, n);
+  }
+  fn visit_path_segment(&mut self, n: &'ast syn::PathSegment) {
+    self.hit(&n.ident.to_string());
+    syn::visit::visit_path_segment(self, n);
+  }
+  fn visit_macro(&mut self, n: &'ast syn::Macro) {
+    // the body of a macro invocation is a token stream: look at its identifiers
+    let name = n.path.segments.last().map(|s| s.ident.to_string()).unwrap_or_default();
+    fn walk(ts: proc_macro2::TokenStream, out: &mut Vec<String>) {
+      for t in ts {
+        match t {
+          proc_macro2::TokenTree::Ident(i) => out.push(i.to_string()),
+          proc_macro2::TokenTree::Group(g) => walk(g.stream(), out),
+          _ => {}
+        }
+      }
+    }
+    let mut ids = vec![];
+    walk(n.tokens.clone(), &mut ids);
+    self.site.push(format!("macro:{}", name));
+    for i in ids {
+      if i == "unsafe" {
+        self.unsafe_hit();
+      } else {
+        self.hit(&i);
+      }
+    }
+    self.site.pop();
+    syn::visit::visit_macro(self, n);
+  }
+}
+
 fn write_if_changed(path: &str, content: &str) {
   if std::fs::read_to_string(path).ok().as_deref() != Some(content) {
     std::fs::write(path, content).unwrap();
@@ -217,6 +326,7 @@ fn main() {
   let mut v = Impls { file: String::new(), rows: vec![], stops: vec![], cur_fn: vec![] };
   let mut ctx_rows: Vec<(String, Vec<String>)> = vec![];
   let mut statics = Statics { file: String::new(), rows: vec![] };
+  let mut cells = Cells { file: String::new(), site: vec![], rows: vec![] };
   for p in &files {
     let src = std::fs::read_to_string(p).unwrap();
     let f = syn::parse_file(&src).unwrap_or_else(|e| panic!("parse {}: {}", p.display(), e));
@@ -224,6 +334,8 @@ fn main() {
     v.visit_file(&f);
     statics.file = v.file.clone();
     statics.visit_file(&f);
+    cells.file = v.file.clone();
+    cells.visit_file(&f);
     if v.file.starts_with("src/rules/") {
       let mut c = CtxCalls(Default::default());
       c.visit_file(&f);
@@ -243,6 +355,13 @@ fn main() {
     t.push_str(&rows.join(",\n"));
     t.push_str("\n]\n\nend DL.Gen\n");
     write_if_changed(&format!("{}/Statics.lean", out), &t);
+  }
+  {
+    let mut t = String::from("/-! GENERATED by harness/src/bin/translate2.rs (syn): every use, in src/ outside `#[cfg(test)]` modules and `use` items,\nof a type that offers interior mutability (cells, locks, once-cells, atomics) and every `unsafe`: (file, identifier, kind of the enclosing item, its name). -/\nnamespace DL.Gen\n\ndef cellUses : List (String × String × String × String) := [\n");
+    let rows: Vec<String> = cells.rows.iter().map(|(a, b, c)| { let (k, n) = c.split_once(':').unwrap_or((c.as_str(), "")); format!("  ({}, {}, {}, {})", lean_str(a), lean_str(b), lean_str(k), lean_str(n)) }).collect();
+    t.push_str(&rows.join(",\n"));
+    t.push_str("\n]\n\nend DL.Gen\n");
+    write_if_changed(&format!("{}/Cells.lean", out), &t);
   }
   let mut s = String::from("/-! GENERATED by harness/src/bin/translate2.rs (syn): every `visit_*` override of every `impl Visit for` in src/, with\nwhether each path through it recurses into the node's children (`always`), some traversal call exists (`sometimes`), or none (`never`). -/\nnamespace DL.Gen\n\n/-- (file, visitor type, method, class) for the overrides that do **not** always recurse -/\ndef visitNotAlways : List (String × String × String × String) := [\n");
   let rows: Vec<String> = v.rows.iter().filter(|r| r.3 != "always").map(|(a, b, c, d)| format!("  ({}, {}, {}, {})", lean_str(a), lean_str(b), lean_str(c), lean_str(d))).collect();
